@@ -826,25 +826,39 @@ def r8_program_identity(ctx, sym, rule='R8', entry='parse_program'):
     # rejects), ('verify', code-or-None) = the source tool checks that code, ('replace', text) = the submission's main
     # code is replaced under the same file name and verified (set_source / next_section)
     V, R = 'verify', 'replace'
-    sequences = [[None], [None, None], ['OTHER', None], [None, 'OTHER', None], ['OTHER', 'OTHER', None, 'THIRD', None],
-                 ['OTHER'], ['BAD', None], [None, 'BAD', None], ['BAD', 'OTHER'], ['BAD', 'BAD', None],
-                 ['OTHER', 'BAD', 'OTHER'],
-                 [None, (R, 'MAIN2'), None], [None, (R, 'MAIN2'), None, (R, 'MAIN'), None], [(R, 'MAIN2'), None, 'OTHER', None],
-                 [(V, 'OTHER'), None], [(V, None), (V, 'OTHER'), None], [None, (V, 'OTHER'), None],
-                 [(V, 'OTHER'), 'OTHER', None], [(V, 'BAD'), None]]
+    # the texts: programs a tidying step would alter (a whitespace-only line inside a string literal, a tab, blanks at
+    # the end of a line, a blank first line) - the tree must be that of the text as submitted
+    MAIN = 'def f():\n    s = """a\n    \n    b"""\n\treturn s \n'
+    MAIN2 = '\n\nx = "\t" \n'
+    OTHER = '    \nfor i in y:\n    pass\n   '
+    THIRD = 'z = 1'
+    names = {MAIN: 'MAIN', MAIN2: 'MAIN2', OTHER: 'OTHER', THIRD: 'THIRD'}
+    sequences = [[None], [None, None], [OTHER, None], [None, OTHER, None], [OTHER, OTHER, None, THIRD, None],
+                 [OTHER], ['BAD', None], [None, 'BAD', None], ['BAD', OTHER], ['BAD', 'BAD', None],
+                 [OTHER, 'BAD', OTHER],
+                 [None, (R, MAIN2), None], [None, (R, MAIN2), None, (R, MAIN), None], [(R, MAIN2), None, OTHER, None],
+                 [(V, OTHER), None], [(V, None), (V, OTHER), None], [None, (V, OTHER), None],
+                 [(V, OTHER), OTHER, None], [(V, 'BAD'), None]]
     from .. import symexec
     reset_fn = mod.functions.get('reset')
+    entry_fn = mod.func(entry)
+    entry_takes_pattern = [a.arg for a in entry_fn.args.args][:1] == ['pattern']
     for source_ok in (True, False):
         for seq in sequences:
-            source = {'success': source_ok, 'ast': ('source-ast', 'MAIN')}
+            source = {'success': source_ok, 'ast': ('source-ast', MAIN)}
             store = {}
-            submission = Obj('submission', main_code='MAIN', main_file='answer.py', files={'answer.py': 'MAIN'},
+            submission = Obj('submission', main_code=MAIN, main_file='answer.py', files={'answer.py': MAIN},
                              load_error=None, line_offsets={})
             report = Obj('report', submission=submission)
             report.attrs['method:__getitem__'] = lambda k: source if k == src_tool else store[k]
             report.attrs['method:__setitem__'] = lambda k, v: store.__setitem__(k, v)
 
             import builtins as _builtins
+
+            def _matcher(pattern):
+                m_ = Obj('StretchyTreeMatcher', pattern=pattern)
+                symexec.method(m_, 'find_matches', lambda tree, *a_, **k_: [('match', pattern, tree)])
+                return m_
 
             def parse(c, *a, **k):
                 if c == 'BAD':
@@ -853,7 +867,8 @@ def r8_program_identity(ctx, sym, rule='R8', entry='parse_program'):
                         end_lineno=None, end_offset=None, text=None))
                 return ('parsed', c)
             fd = symexec.new_fd(sym, mod, calls={'ast.parse': parse, 'system_error': lambda *a, **k: None,
-                                                 'CaitNode': lambda a, report=None: ('cait', a)},
+                                                 'CaitNode': lambda a, report=None: ('cait', a),
+                                                 'StretchyTreeMatcher': lambda pattern, *a_, **k_: _matcher(pattern)},
                                 extra={'MAIN_REPORT': report})
 
             def b_isinstance(o, t):
@@ -908,7 +923,7 @@ def r8_program_identity(ctx, sym, rule='R8', entry='parse_program'):
                 else:
                     ok = got is cait and bool(cait['success']) and isinstance(tree, tuple) and tree[0] == 'cait' \
                         and tree[1][1] == want_code
-                show = [s_ if not isinstance(s_, tuple) else '%s(%s)' % s_ for s_ in seq]
+                show = [names.get(s_, s_) if not isinstance(s_, tuple) else '%s(%s)' % (s_[0], names.get(s_[1], s_[1])) for s_ in seq]
                 key = 'reparse_if_needed[%s,source_ok=%s]@%d' % (','.join(str(c) for c in show), source_ok, i)
                 ctx.check(ok, rule, key, mod, fn,
                           "after the history %s the static checks are handed the tree %r with success=%r%s; expected %s" % (
@@ -920,6 +935,27 @@ def r8_program_identity(ctx, sym, rule='R8', entry='parse_program'):
                           "query: every check answers for the snippet", construct='reparse_if_needed')
                 if not ok:
                     break
+                # the entry point itself, where it takes a pattern (find_matches): what it returns was matched against
+                # the tree of the code asked for - now, not when the same pattern was asked before
+                if entry_takes_pattern:
+                    pattern = 'for _x_ in ___:\n    pass'
+                    got_m, raised_m = symexec.run(fd, entry_fn, [pattern], {'student_code': code, 'report': report},
+                                                  what=entry)
+                    if code == 'BAD':
+                        ok_m = raised_m is None and got_m == []
+                    else:
+                        ok_m = raised_m is None and isinstance(got_m, list) and len(got_m) == 1 and \
+                            got_m[0][:2] == ('match', pattern) and isinstance(got_m[0][2], tuple) and \
+                            got_m[0][2][0] == 'cait' and got_m[0][2][1][1] == want_code
+                    ctx.check(ok_m, rule, '%s[%s,source_ok=%s]@%d' % (entry, ','.join(str(c) for c in show), source_ok, i),
+                              mod, entry_fn,
+                              "after the history %s, %s(pattern) returns %r%s; expected the matches in the tree of %s" % (
+                                  show[:i + 1], entry, got_m, '' if raised_m is None else ' (raises %s)' % raised_m.kind,
+                                  'nothing (the code does not parse)' if code == 'BAD' else names.get(want_code, want_code)),
+                              "set_source(part one); find_matches('for _x_ in ___: pass'); next_section(); the same "
+                              "find_matches call answers for part one again", construct=entry)
+                    if not ok_m:
+                        break
     pp = mod.func(entry)
     ok = any(call_name(c) == 'reparse_if_needed' for c in calls(pp))
     ctx.check(ok, rule, '%s:uses-reparse' % entry, mod, pp, "%s no longer goes through reparse_if_needed" % entry,
